@@ -13,5 +13,20 @@ func setupGenStubs() map[string]string {
 	sg := &serveGen{Pool: []string{"/a"}, EnumN: 1, EntryMethods: []string{"GET"}, ReqMethods: []string{"GET"}, Paths: []string{"/a"}, Host: "a.b", MaxTab: 1}
 	rg := &routerGen{Pool: []string{"/a"}, Methods: []string{"GET"}, MaxOps: 1, MaxParams: 65535, MaxKey: 65535, Trunc: [][]int{{}}, Kinds: []string{"Handle"}, Settled: []string{"Handle"},
 		Probes: []probeReq{{1, "", "/a"}}, Prefixes: []prefixReq{{[]int{1}, "/"}}}
-	return map[string]string{"Gen_Match.tla": g.tla(false), "Gen_Serve.tla": sg.tla(), "Gen_Router.tla": rg.tla(), "Gen_Probe.tla": rg.probeTLA([][][2]int{{{1, 1}}})}
+	extra := map[string]string{
+		"Gen_Clean.tla":      "---- MODULE Gen_Clean ----\nGenAlphabet == {\"/\"}\nGenPrefixLen == 1\nGenSuffixLen == 1\n====\n",
+		"Gen_Pattern.tla":    "---- MODULE Gen_Pattern ----\nGenAlphabet == {\"/\"}\nGenPrefixLen == 1\nGenSuffixLen == 1\nGenLimits == << <<1, 1>> >>\nGenParamValues == { <<\"a\">> }\nGenCatchValues == { <<\"a\">> }\n====\n",
+		"Gen_Writer.tla":     "---- MODULE Gen_Writer ----\nGenCaps == {}\nGenCodes == {200}\nGenWriteSizes == { <<1,1>> }\nGenReadFroms == { <<1,1,1>> }\nGenMaxCalls == 1\nGenHelperCodes == {}\n====\n",
+		"Gen_Middleware.tla": "---- MODULE Gen_Middleware ----\nGenScopes == << {\"route\"} >>\nGenMaxGlobal == 1\n====\n",
+		"Gen_Options.tla":    "---- MODULE Gen_Options ----\nGenGlobalOpts == { <<\"ign\", TRUE>> }\nGenRouteOpts == { <<\"ign\", TRUE>> }\nGenMaxGlobal == 1\nGenMaxRoute == 1\nGenAnnKeys == {\"k1\"}\nGenAnnKeySeq == <<\"k1\">>\nGenBadKeys == {}\nGenPatterns == << <<\"/\">> >>\n====\n",
+		"Gen_Logger.tla":     "---- MODULE Gen_Logger ----\nGenDid == { <<\"nothing\">> }\n====\n",
+		"Gen_Recovery.tla":   "---- MODULE Gen_Recovery ----\nGenHeaderNames == << <<\"A\">> >>\nGenSensitive == { <<\"A\">> }\n====\n",
+		"Gen_Conc.tla":       "---- MODULE Gen_Conc ----\nGenKeys == {1}\nGenWriters == {1}\nGenReaders == {1}\nGenProg == << [single |-> TRUE, ops |-> << <<\"Handle\", 1>> >>, end |-> \"commit\"] >>\nGenReadCalls == { <<\"len\">> }\nGenMaxReads == 1\nGenBroken == \"none\"\n====\n",
+		"obs.ndjson":         "",
+	}
+	m := map[string]string{"Gen_Match.tla": g.tla(false), "Gen_Serve.tla": sg.tla(), "Gen_Router.tla": rg.tla(), "Gen_Probe.tla": rg.probeTLA([][][2]int{{{1, 1}}})}
+	for k, v := range extra {
+		m[k] = v
+	}
+	return m
 }
